@@ -8,8 +8,9 @@ open WR WR.Sexp WR.C03
 namespace Driver.C03
 
 def getSel : Sexp → Option Sel
-  | .list [.atom "s", a, b, c, ok] => do
-    some { spec := ((← a.asNat?), (← b.asNat?), (← c.asNat?)), ok := (← ok.asBool?) }
+  | .list [.atom "s", a, b, c, ok, amp, bare] => do
+    some { spec := ((← a.asNat?), (← b.asNat?), (← c.asNat?)), ok := (← ok.asBool?),
+           amp := (← amp.asBool?), bare := (← bare.asBool?) }
   | _ => none
 
 def getSels : Sexp → Option (List Sel)
